@@ -38,6 +38,29 @@ Lemma pres_modify (P : session -> Prop) (f : session -> session) :
   (forall s, P s -> P (f s)) -> preserves P (modify f).
 Proof. intros Hf s a s' H HP; inversion H; subst; auto. Qed.
 
+(* postcondition on the final state *)
+Definition post {A} (Q : session -> Prop) (m : M A) : Prop :=
+  forall s a s', m s = Ok (a, s') -> Q s'.
+
+Lemma post_bind {A B} (Q : session -> Prop) (m : M A) (f : A -> M B) :
+  (forall a, post Q (f a)) -> post Q (bind m f).
+Proof.
+  intros Hf s b s' H. unfold bind in H. destruct (m s) as [[a s1]| |]; try discriminate. eapply Hf; eauto.
+Qed.
+
+Lemma post_bind_pres {A B} (Q : session -> Prop) (m : M A) (f : A -> M B) :
+  post Q m -> (forall a, preserves Q (f a)) -> post Q (bind m f).
+Proof.
+  intros Hm Hf s b s' H. unfold bind in H. destruct (m s) as [[a s1]| |] eqn:E; try discriminate.
+  eapply Hf; eauto.
+Qed.
+
+Lemma post_modify (Q : session -> Prop) (g : session -> session) : (forall s, Q (g s)) -> post Q (modify g).
+Proof. intros H s a s' E. inversion E; subst; auto. Qed.
+
+Lemma post_raise {A} (Q : session -> Prop) e : post Q (@raise A e).
+Proof. intros s a s' H; inversion H. Qed.
+
 Record frame_ok (P : session -> Prop) : Prop := {
   fo_log : forall s v, P s -> P (set_log s v);
   fo_classes : forall s v, P s -> P (set_classes s v);
